@@ -374,3 +374,52 @@ def is_reachable(fn, node):
     if w is None:
         return True
     return w[0] in fn.cfg.reachable_blocks()
+
+
+def emptiness(cond):
+    """(subject text, True when the condition being TRUE means 'subject is empty') for the usual spellings of an emptiness test:
+    v.empty(), !v.empty(), v.size() == 0, v.size() != 0, v.size() > 0, 0 < v.size(), v.size() (as a truth value), p == nullptr / p != 0;
+    None for anything else"""
+    from .facts import strip as _strip, txt as _txt, callee as _callee, call_object as _obj
+    c = _strip(cond)
+    neg = False
+    while c is not None and c.get("k") == "UnaryOperator" and c.get("op") == "!":
+        neg = not neg
+        c = _strip(c["c"][0])
+    if c is None:
+        return None
+
+    def size_of(e):
+        e = _strip(e)
+        if e is not None and e.get("k") == "CXXMemberCallExpr" and (_callee(e) or "").rsplit("::", 1)[-1] in ("size", "getNumIndexes", "getNumStrips") and _obj(e) is not None:
+            return _txt(_strip(_obj(e)))
+        return None
+
+    def is_zero(e):
+        e = _strip(e)
+        return e is not None and ((e.get("k") == "IntegerLiteral" and str(e.get("val")) == "0") or e.get("k") in ("CXXNullPtrLiteralExpr", "GNUNullExpr") or _txt(e) in ("0", "nullptr"))
+    if c.get("k") == "CXXMemberCallExpr" and (_callee(c) or "").endswith("::empty") and _obj(c) is not None:
+        return _txt(_strip(_obj(c))), (not neg)
+    s = size_of(c)
+    if s is not None:                      # if (v.size())
+        return s, neg
+    if c.get("k") == "BinaryOperator" and c.get("op") in ("==", "!=", ">", "<", ">=", "<="):
+        a, b = c["c"][0], c["c"][1]
+        op = c["op"]
+        if is_zero(a) and not is_zero(b):
+            a, b = b, a
+            op = {"<": ">", ">": "<", "<=": ">=", ">=": "<="}.get(op, op)
+        if is_zero(b):
+            subj = size_of(a)
+            if subj is None:
+                a0 = _strip(a)
+                if a0 is not None and a0.get("k") in ("DeclRefExpr", "MemberExpr") and op in ("==", "!="):
+                    subj = _txt(a0)         # pointer compared with null
+            if subj is not None:
+                if op in ("==", "<="):
+                    return subj, (not neg)
+                if op in ("!=", ">"):
+                    return subj, neg
+    if c.get("k") in ("DeclRefExpr",) and "*" in (c.get("t") or ""):
+        return _txt(c), neg                 # if (p): true means not null
+    return None
